@@ -1,0 +1,39 @@
+//go:build verif
+
+package cloudwatch
+
+import (
+	"github.com/sirupsen/logrus"
+	"github.com/spf13/viper"
+
+	"github.com/atlassian/gostatsd"
+	"github.com/atlassian/gostatsd/internal/util"
+)
+
+// NewClientWithAPI constructs a Cloudwatch backend over a caller supplied CloudwatchClient, so that neither an AWS
+// configuration nor a network is needed. Everything else is what NewClient builds.
+// It is compiled only with the "verif" build tag, for the external verification harness.
+func NewClientWithAPI(namespace string, disabled gostatsd.TimerSubtypes, logger logrus.FieldLogger, api CloudwatchClient) *Client {
+	return &Client{
+		logger: logger,
+
+		cloudwatch: api,
+		namespace:  namespace,
+
+		disabledSubtypes: disabled,
+	}
+}
+
+// NewClientFromViperWithAPI reads the same keys as NewClientFromViper (the transport key is read and ignored).
+func NewClientFromViperWithAPI(v *viper.Viper, logger logrus.FieldLogger, api CloudwatchClient) (gostatsd.Backend, error) {
+	g := util.GetSubViper(v, "cloudwatch")
+	g.SetDefault("namespace", "StatsD")
+	g.SetDefault("transport", "default")
+
+	return NewClientWithAPI(
+		g.GetString("namespace"),
+		gostatsd.DisabledSubMetrics(v),
+		logger,
+		api,
+	), nil
+}
